@@ -362,35 +362,55 @@ def r1_es(ctx: Ctx, rep: Report):
 
 # ----------------------------------------------------------------------- R2
 def offered_modes(ctx: Ctx, fn: FuncInfo) -> List[Tuple[str, Set[str]]]:
-    """[(condition description, set of offered member names)] of get_operation_modes(include_emulated=True)."""
+    """[(condition description, set of offered member names)] of get_operation_modes(include_emulated=True): each path
+    is evaluated with the analyser's constant evaluator (the list is built from OperationMode, members are removed /
+    filtered, the result is returned); tests of the inverter's own state are the path's condition."""
+    from ..model import UNKNOWN, EnumVal
     prog = ctx.prog
-    modes = opmode(ctx)
     out = []
+    mutators = {"remove": lambda c, a: c.remove(a), "append": lambda c, a: c.append(a), "discard": lambda c, a: c.discard(a),
+                "add": lambda c, a: c.add(a), "extend": lambda c, a: c.extend(a), "update": lambda c, a: c.update(a)}
     for p in enumerate_paths(prog, fn, no_raise):
-        cur: Optional[Set[str]] = None
+        env: Dict[str, object] = {fn.params[1]: True}
         conds = []
         feasible_path = True
         for ev in p.events:
             if ev.kind == "test":
-                if norm(ev.node) == fn.params[1] or norm(ev.node) == "not %s" % fn.params[1]:
-                    # include_emulated is True
-                    truth = (norm(ev.node) == fn.params[1])
-                    if ev.data != truth:
-                        feasible_path = False
-                        break
+                try:
+                    v = bool(prog.consteval(ev.node, fn.module, env))
+                except NotConst:
+                    conds.append("%s=%s" % (norm(ev.node), ev.data))
                     continue
-                conds.append("%s=%s" % (norm(ev.node), ev.data))
-            if ev.kind == "stmt" and isinstance(ev.node, ast.Assign) and isinstance(ev.node.value, ast.Call) and norm(ev.node.value) == "list(OperationMode)":
-                cur = set(modes)
-            if ev.kind == "call" and (call_chain(ev.node) or ("",))[-1] == "remove" and cur is not None:
-                for nm in re.findall(r"OperationMode\.(\w+)", norm(ev.node.args[0])):
-                    cur.discard(nm)
-        if not feasible_path:
+                if v != bool(ev.data):
+                    feasible_path = False
+                    break
+            elif ev.kind == "call" and isinstance(ev.node.func, ast.Attribute) and isinstance(ev.node.func.value, ast.Name) \
+                    and ev.node.func.attr in mutators and len(ev.node.args) == 1 and isinstance(env.get(ev.node.func.value.id), (list, set)):
+                try:
+                    mutators[ev.node.func.attr](env[ev.node.func.value.id], prog.consteval(ev.node.args[0], fn.module, env))
+                except (NotConst, ValueError, KeyError, TypeError):
+                    env[ev.node.func.value.id] = UNKNOWN
+            elif ev.kind == "stmt" and isinstance(ev.node, (ast.Assign, ast.AnnAssign, ast.AugAssign)) and ev.node.value is not None:
+                st = ev.node
+                tgts = st.targets if isinstance(st, ast.Assign) else [st.target]
+                val = st.value if not isinstance(st, ast.AugAssign) else ast.BinOp(left=ast.Name(id=getattr(st.target, "id", "?"), ctx=ast.Load()), op=st.op, right=st.value)
+                try:
+                    v = prog.consteval(val, fn.module, env)
+                    if isinstance(v, (list, set)):
+                        v = type(v)(v)
+                except NotConst:
+                    v = UNKNOWN
+                for t in tgts:
+                    if isinstance(t, ast.Name):
+                        env[t.id] = v
+        if not feasible_path or p.end != "return" or p.end_node.value is None:
             continue
-        if p.end == "return" and cur is not None:
-            out.append((", ".join(conds) or "always", set(cur)))
-        elif p.end == "return" and isinstance(p.end_node.value, ast.Tuple) and not p.end_node.value.elts:
-            out.append((", ".join(conds) or "always", set()))
+        try:
+            rv = prog.consteval(p.end_node.value, fn.module, env)
+        except NotConst:
+            continue
+        if isinstance(rv, (list, tuple, set, frozenset)) and all(isinstance(x, EnumVal) and x.cls.name == "OperationMode" for x in rv):
+            out.append((", ".join(conds) or "always", {x.name for x in rv}))
     return out
 
 
@@ -698,7 +718,23 @@ def _check_conjunct(prog, enc: FuncInfo, cj: ast.expr, lay, fields, kind: str) -
     if attr == "power":
         want_neg = isinstance(op, ast.Lt)
         src = norm(e)
-        is_neg = isinstance(e, ast.BinOp) and isinstance(e.op, ast.BitAnd) and ("-1 * abs(" in src or "-abs(" in src) and ("2 ** 16 - 1" in src or "65535" in src or "0xffff" in src.lower())
+        def cv(x):
+            try:
+                return prog.consteval(x, enc.module)
+            except NotConst:
+                return None
+
+        def is_abs(x):
+            return isinstance(x, ast.Call) and norm(x.func) == "abs"
+
+        def neg_abs(x):     # -abs(p), -1 * abs(p), abs(p) * -1
+            if isinstance(x, ast.UnaryOp) and isinstance(x.op, ast.USub):
+                return is_abs(x.operand)
+            if isinstance(x, ast.BinOp) and isinstance(x.op, ast.Mult):
+                return (cv(x.left) == -1 and is_abs(x.right)) or (cv(x.right) == -1 and is_abs(x.left))
+            return False
+        is_neg = isinstance(e, ast.BinOp) and isinstance(e.op, ast.BitAnd) and \
+            ((neg_abs(e.left) and cv(e.right) == 0xFFFF) or (neg_abs(e.right) and cv(e.left) == 0xFFFF))
         is_pos = isinstance(e, ast.Call) and norm(e.func) == "abs"
         if want_neg and not is_neg:
             return ["power field is %s, not -|p| masked to 16 bits (recogniser needs power < 0)" % src]
